@@ -3,7 +3,7 @@ five stored (already encoded) parts, class U; every specification is a function 
 parts and the arguments only, which is itself part of C08 (results are functions of the
 arguments)."""
 from . import spec_parse
-from .prims import CUT
+from .prims import CUT, hash_parts
 
 DEFAULT_PORTS = {"http": 80, "https": 443, "ws": 80, "wss": 443, "ftp": 21}   # C17
 
@@ -244,3 +244,82 @@ def origin(u):
 def origin_requires(u):
     spec_parse.split_netloc(u.netloc)
     return True
+
+
+# ---------------------------------------------------------------- C10: equality, hash, order
+
+def cmp_key(u):
+    """what == compares: the five parts, an empty path under an authority counting as '/'"""
+    path = u.path
+    if not path and u.netloc:
+        path = "/"
+    return (u.scheme, u.netloc, path, u.query, u.fragment)
+
+
+def eq(u, other):
+    if type(other) is not U:
+        return NotImplemented
+    return cmp_key(u) == cmp_key(other)
+
+
+def hash_(u):
+    k = cmp_key(u)
+    return hash_parts(k[0], k[1], k[2], k[3], k[4])
+
+
+def lt(u, other):
+    if type(other) is not U:
+        return NotImplemented
+    return cmp_key(u) < cmp_key(other)
+
+
+def le(u, other):
+    if type(other) is not U:
+        return NotImplemented
+    return cmp_key(u) <= cmp_key(other)
+
+
+def gt(u, other):
+    if type(other) is not U:
+        return NotImplemented
+    return cmp_key(u) > cmp_key(other)
+
+
+def ge(u, other):
+    if type(other) is not U:
+        return NotImplemented
+    return cmp_key(u) >= cmp_key(other)
+
+
+def lemma_order_coherent(a, b):
+    """C10: exactly one of a < b, a == b, a > b; <= is < or ==; >= is > or ==; equal URLs
+    hash alike; equality is symmetric"""
+    e, l, g = eq(a, b), lt(a, b), gt(a, b)
+    one = (e and not l and not g) or (l and not e and not g) or (g and not e and not l)
+    return (one and le(a, b) == (l or e) and ge(a, b) == (g or e)
+            and (not e or hash_(a) == hash_(b)) and e == eq(b, a) and l == gt(b, a))
+
+
+def lemma_eq_transitive(a, b, c):
+    return not (eq(a, b) and eq(b, c)) or eq(a, c)
+
+
+def lemma_eq_reflexive(a):
+    return eq(a, a) and not lt(a, a) and le(a, a)
+
+
+# the lazy definition of every key a function may pre-fill in a URL's memo (C09, C08-O2)
+MEMO_SPECS = {
+    "scheme": scheme, "raw_user": raw_user, "raw_password": raw_password, "raw_host": raw_host,
+    "explicit_port": explicit_port, "raw_path": raw_path, "raw_query_string": raw_query_string,
+    "raw_fragment": raw_fragment, "hash": hash_, "_cmp_val": cmp_key, "raw_authority": raw_authority,
+    "absolute": absolute, "host_subcomponent": host_subcomponent, "port": port,
+}
+
+
+def with_fragment(u, fragment):
+    """C11: only the fragment changes; None clears it"""
+    if fragment is not None and not isinstance(fragment, str):
+        raise TypeError("Invalid fragment type")
+    raw = "" if fragment is None else spec_parse.FRAGMENT_QUOTER(fragment)
+    return U(u.scheme, u.netloc, u.path, u.query, raw)
